@@ -14,7 +14,8 @@ MODELLED = (
     "_BoundMethodProxy.__eq__/__hash__ compute for functions, bound methods of one instance and callable objects with "
     "__eq__), Dispatcher.subscribe/unsubscribe/unsubscribe_all with _counter and _token_mapping, RunEngine.subscribe/"
     "unsubscribe/reset, __call__(plan, subs) with normalize_subs_input and _clear_call_cache's temporary tokens, the "
-    "'subscribe'/'unsubscribe' message handlers (incl. the KeyError of set.remove), and only as much of open_run/"
+    "'subscribe'/'unsubscribe' message handlers (incl. the KeyError of set.remove), callbacks calling RE.unsubscribe/"
+    "RE.subscribe during delivery (list() snapshot in process), and only as much of open_run/"
     "create-read-save/close_run/_run's finally as decides which documents a non-catching plan emits. Weak-reference "
     "death of a bound method's owner (_remove_proxy) and pause/resume inside a call are not modelled; asyncio, "
     "event_model and the bundler are trusted to emit the documents of those tiny plans."
@@ -26,7 +27,8 @@ RULE = (
     "method, callable object; and equal-but-distinct callable objects); plus seeded random histories of <=6 operations "
     "(random names incl. non-run kinds and invalid ones, dict/list/callable per-call subs incl. invalid keys, random "
     "plans with in-plan subscribe/unsubscribe by arg and kw, malformed message order, unknown tokens, unsubscribe_all, "
-    "reset, both exception policies with raising callbacks). Non-trivial = some document reached some callable."
+    "reset, both exception policies with raising callbacks; a quarter of them with callbacks that unsubscribe tokens or "
+    "subscribe a fourth callable while a document is being delivered). Non-trivial = some document reached some callable."
 )
 
 
@@ -45,7 +47,8 @@ def cases(rng, tier):
         out += rng.sample(e4, 6000)
         nrand = 12000
     for i in range(nrand):
-        out.append(G.rand_history(rng, maxops=6, p_raise=0.25 if i % 3 == 0 else 0.0, p_ignore=0.12 if i % 3 == 0 else 0.0))
+        c = G.rand_history(rng, maxops=6, p_raise=0.25 if i % 3 == 0 else 0.0, p_ignore=0.12 if i % 3 == 0 else 0.0)
+        out.append(G.add_random_acts(rng, c, p=0.4) if i % 4 == 1 else c)
     return out
 
 
